@@ -391,6 +391,13 @@ SecAtoms ==
                              <<"oaPassword", "none">>, <<"oaApp", "global">>, <<"keyAuthz", "global">>} THEN 1 ELSE 2)
       : s \in SecSchemes, w \in {"global", "op", "none"}}
    \cup {Atom("secnone", "security:[]@op", "secnone", "op", "", Nul, Nul, 1)}
+   \cup \* one requirement that names two schemes (both must be satisfied), the second with scopes
+   {Atom("secand", "basic&oauth@" \o w, "secand", w, "",
+         O(KV("andBasic", O(KV("type", S("basic"))))
+           @@ KV("andOauth", O(KV("type", S("oauth2")) @@ KV("flow", S("application"))
+                                @@ KV("tokenUrl", S("https://h.example/token")) @@ KV("scopes", Scopes)))),
+         O(KV("andBasic", A(<<>>)) @@ KV("andOauth", A(<<S("read"), S("write")>>))), IF w = "op" THEN 2 ELSE 3)
+      : w \in {"global", "op"}}
 
 (* ---------------------------------------------- servers, media types, methods *)
 Srv(id, h, b, ss, c) == Atom("server", "server:" \o id, "server", "", "",
@@ -459,8 +466,8 @@ Compatible(X) ==
          /\ (\E b \in X : b.k = "body") => ~IsFormMt(a)
          /\ (\E b \in X : b.k = "form" /\ Opt(b.v, "type") = S("file")) => a.n \in {"multi", "both"}
          /\ Cardinality(X) > 1 => \E b \in X : b.k \in {"body", "form"}
-   /\ \A a \in X : a.k = "secnone" => ~\E b \in X : b.k = "sec" /\ b.w = "op"
-   /\ \A a \in X : a.k = "nopaths" => \A b \in X : b.k \in {"nopaths", "def", "server"} \/ (b.k = "sec" /\ b.w # "op")
+   /\ \A a \in X : a.k = "secnone" => ~\E b \in X : b.k \in {"sec", "secand"} /\ b.w = "op"
+   /\ \A a \in X : a.k = "nopaths" => \A b \in X : b.k \in {"nopaths", "def", "server"} \/ (b.k \in {"sec", "secand"} /\ b.w # "op")
    \* an extra operation on /a shares the path: the path parameter must then sit on the path item
    /\ \A a \in X : (a.k = "method" /\ a.w = "") =>
          ~\E b \in X : b.k = "param" /\ b.w \in {"op", "shared"} /\ Opt(b.v, "in") = S("path")
@@ -493,13 +500,16 @@ Build(X) ==
        reqOf(a) == O(KV(a.n, a.x))
        opSec == {a \in secs : a.w = "op"}
        glSec == {a \in secs : a.w = "global"}
+       ands == Ks("secand")
+       opReqs == {reqOf(a) : a \in opSec} \cup {a.x : a \in {b \in ands : b.w = "op"}}
+       glReqs == {reqOf(a) : a \in glSec} \cup {a.x : a \in {b \in ands : b.w = "global"}}
        cons == Ks("consumes")
        prod == Ks("produces")
        needMultipart == Ks("form") # {} /\ cons = {}
        op1 == O(KV("operationId", S("getA"))
                 @@ If(opParams1 # {}, KV("parameters", A(SetToSeq(opParams1))))
                 @@ KV("responses", O([c \in codes |-> respOf(c)]))
-                @@ If(opSec # {}, KV("security", A(SetToSeq({reqOf(a) : a \in opSec}))))
+                @@ If(opReqs # {}, KV("security", A(SetToSeq(opReqs))))
                 @@ If(Ks("secnone") # {}, KV("security", A(<<>>)))
                 @@ If(\E a \in prod : a.w = "op", KV("produces", (CHOOSE a \in prod : TRUE).v)))
        item1 == O(KV("get", op1)
@@ -521,8 +531,10 @@ Build(X) ==
         @@ If(sharedR # {} \/ prX # {},
               KV("responses", O([n \in {a.n : a \in prX} |-> (CHOOSE a \in prX : a.n = n).x]
                                 @@ [n \in {"R_" \o a.n : a \in sharedR} |-> (CHOOSE a \in sharedR : "R_" \o a.n = n).v])))
-        @@ If(secs # {}, KV("securityDefinitions", O([n \in {a.n : a \in secs} |-> (CHOOSE a \in secs : a.n = n).v])))
-        @@ If(glSec # {}, KV("security", A(SetToSeq({reqOf(a) : a \in glSec}))))
+        @@ If(secs # {} \/ ands # {},
+              KV("securityDefinitions", O([n \in {a.n : a \in secs} |-> (CHOOSE a \in secs : a.n = n).v]
+                                          @@ (IF ands # {} THEN (CHOOSE a \in ands : TRUE).v.m ELSE <<>>))))
+        @@ If(glReqs # {}, KV("security", A(SetToSeq(glReqs))))
         @@ If(\E a \in cons : a.w = "doc", KV("consumes", (CHOOSE a \in cons : TRUE).v))
         @@ If(\E a \in prod : a.w = "doc", KV("produces", (CHOOSE a \in prod : TRUE).v))
         @@ server)
